@@ -177,6 +177,11 @@ func (c *SCIONClient) measureClockOffsetSCION(ctx context.Context, mtrcs *scionC
 			c.Log.LogAttrs(ctx, slog.LevelInfo, "failed to fetch key exchange data", slog.Any("error", err))
 			return time.Time{}, 0, err
 		}
+		if len(ntskeData.Cookie[0]) > nts.MaxCookieLen {
+			// the server supplied a cookie that no request can carry
+			c.Log.LogAttrs(ctx, slog.LevelInfo, "failed to use cookie: unexpected length")
+			return time.Time{}, 0, errUnexpectedCookie
+		}
 		remoteAddr.Host.IP = net.ParseIP(ntskeData.Server)
 		remoteAddr.Host.Port = int(ntskeData.Port)
 		if remoteAddr.IA == localAddr.IA {
